@@ -12,6 +12,7 @@ import zlib
 from array import array
 
 import rx
+import rx.operators as _rxops
 
 from .common import bootstrap, norm
 
@@ -34,6 +35,20 @@ import numpy as _np                                                   # noqa: E4
 
 
 _THE_NAN = float('nan')
+
+
+class _Plain:
+    """an ordinary object: equality is identity"""
+    __slots__ = ('tag',)
+
+    def __init__(self, tag):
+        self.tag = tag
+
+    def __repr__(self):
+        return '_Plain(%d)' % self.tag
+
+
+_PLAIN_OBJECTS = [_Plain(j) for j in range(7)]
 
 
 class Boom(Exception):
@@ -68,6 +83,20 @@ def _dict_count(a, i):
 def _nested_mut(a, i):
     a[0].append(i)
     return (a[0], a[1] + 1)
+
+
+def _boom_class(base):
+    return type('Boom' + base.__name__, (Boom, base), {})
+
+
+# the same injected failure as instances of the exception classes user code really raises (a missing attribute on a None
+# payload, a missing key, a bad cast, a division by zero ...): which class it is must make no difference
+BOOMS = [Boom] + [_boom_class(b) for b in (AttributeError, KeyError, TypeError, ValueError, IndexError, ZeroDivisionError, RuntimeError,
+                                             AssertionError, OSError, LookupError, ArithmeticError, UnicodeError, NotImplementedError)]
+
+
+def boom_for(item_id, item):
+    return BOOMS[item_id % len(BOOMS)](item)
 
 
 class Box:
@@ -184,6 +213,10 @@ _FUNCS = {
     'kf': lambda k: (lambda i: float(i % k)),
     'kmix': lambda k: (lambda i: float(i % k) if i % 2 else i % k),
     'kdig': lambda k: (lambda x: digest(x) % k),
+    # keys that are identity-hashed objects
+    'kobj': lambda k: (lambda i: _PLAIN_OBJECTS[i % min(k, len(_PLAIN_OBJECTS))]),
+    # EQUAL items with different keys: (g, 1) == (g, 1.0) == (g, True) - same hash too - keyed by the type of the second field
+    'ktype': lambda: (lambda t: (t[0], type(t[1]).__name__)),
     # numpy scalars: their == / != / > return numpy.bool_, which is not the object True
     'knp': lambda k: (lambda i: _np.int64(i % k)),
     'modnp': lambda k: (lambda i: _np.int64(i % k)),
@@ -197,6 +230,9 @@ _FUNCS = {
     'divnone': lambda k: (lambda i: None if (i // k) % 2 else (i // k)),
     # a value that is != to ITSELF, and the same object every time (a module-level NaN standing for a missing label):
     # by != every such item is a run of its own; identity says nothing about equality
+    # values that compare by IDENTITY (instances of a plain class without __eq__): a copy of one is != to it
+    'divobj': lambda k: (lambda i: _PLAIN_OBJECTS[(i // k) % len(_PLAIN_OBJECTS)]),
+    'divobjt': lambda k: (lambda i: (_PLAIN_OBJECTS[(i // k) % len(_PLAIN_OBJECTS)], 'x')),
     'divnan': lambda k: (lambda i: _THE_NAN if (i // k) % 3 == 1 else (i // k)),
     # different keys whose hashes collide: hash(-1) == hash(-2); ints congruent mod 2**61-1 share a hash
     'kneg': lambda k: (lambda i: -1 - (i % k)),
@@ -252,7 +288,7 @@ def fn(name, env=None):
             key = a[-1]
             k = key if isinstance(key, int) else digest(key)
             if k in bad:
-                raise Boom(key)
+                raise boom_for(k, key)
             return inner(*a)
         return f
     args = [int(x) for x in parts[1:]]
@@ -376,6 +412,9 @@ _reg('pad_start', '*', _same, lambda n, e: call(rs.data.pad_start, [('size', n[1
 _reg('pad_end', '*', _same, lambda n, e: call(rs.data.pad_end, [('size', n[1]), ('value', n[2])]), ['stateful', 'mux_only', 'completion'])
 _reg('start_with', '*', _same, lambda n, e: call(rs.ops.start_with, [('padding', list(n[1]))]), ['stateful', 'mux_only'])
 # error handlers (C13)
+# an RxPY-native operator with inner observables (only placed by C08, in branches on plain observables): its inner
+# subscriptions are scheduler-driven, so on a cold trampolined source they emit after the source has completed
+_reg('rxflat', 'i', 'i', lambda n, e: _rxops.flat_map(lambda x: rx.from_([x, x + 1])), ['dual'])
 _reg('ignore', '*', _same, lambda n, e: rs.error.ignore(), ['mux_only'])
 _reg('error_map', '*', _same, lambda n, e: rs.error.map((e or {}).get('error_map', lambda err: -1)), ['mux_only'])
 _reg('route', '*', _same, lambda n, e: e['route'](), ['mux_only'])
@@ -413,10 +452,10 @@ def out_type(node, t):
     return o
 
 
-INT_FUNCS = {'sub', 'tonp', 'knp', 'modnp', 'divnp', 'divnpf', 'npgt', 'kcent', 'divcent', 'divbool', 'divnone', 'divnan', 'add', 'mul', 'mod', 'div', 'neg', 'pair', 'pairmod', 'rep', 'upto', 'opt', 'half', 'tofloat', 'nt', 'even', 'odd',
+INT_FUNCS = {'kobj', 'sub', 'tonp', 'knp', 'modnp', 'divnp', 'divnpf', 'npgt', 'kcent', 'divcent', 'divbool', 'divnone', 'divnan', 'divobj', 'divobjt', 'add', 'mul', 'mod', 'div', 'neg', 'pair', 'pairmod', 'rep', 'upto', 'opt', 'half', 'tofloat', 'nt', 'even', 'odd',
              'modeq', 'modne', 'modtruthy', 'kt', 'ks', 'kbig', 'kf', 'kmix', 'kneg', 'kmers', 'ktneg', 'divt', 'divs', 'divbig', 'divhuge', 'divf', 'divpar'}
 NUM_FUNCS = {'gt', 'lt', 'trunc', 'scale10'}
-ANY_FUNCS = {'id', 'digest', 'dgt', 'true', 'false', 'kdig', 'digpar'}
+ANY_FUNCS = {'id', 'digest', 'dgt', 'true', 'false', 'kdig', 'digpar', 'ktype'}
 TYPED_FUNCS = {'frompy': 'p', 't0': 't', 't1': 't', 'tsum': 't', 'len': 'l', 'lsum': 'l', 'isnone': 'o', 'ntsum': 'n'}
 INT_ACCS = {'acc_add', 'acc_addsq', 'acc_max', 'acc_pair', 'acc_npvec'}
 
@@ -650,7 +689,11 @@ def np_params(node, kind='int64'):
     node = list(node)
     for k in NP_PARAM_POS.get(node[0], ()):
         if isinstance(node[k], int) and not isinstance(node[k], bool):
-            node[k] = getattr(_np, kind)(node[k])
+            if kind in ('int8', 'uint8', 'int16') and not (0 <= node[k] <= _np.iinfo(kind).max):
+                kind_k = 'int64'
+            else:
+                kind_k = kind
+            node[k] = getattr(_np, kind_k)(node[k])
     return node
 
 
